@@ -95,5 +95,6 @@ pub fn tal(name: &str, key: usize, uris: &[&str]) -> TalSpec {
     TalSpec {
         name: name.into(), key,
         uris: uris.iter().map(|s| s.to_string()).collect(),
+        runs: None,
     }
 }
